@@ -13,7 +13,7 @@ from pathlib import Path
 
 import pathspec
 
-from flowmark.file_resolver.gitignore import load_gitignore, load_tool_ignore
+from flowmark.file_resolver.gitignore import find_tool_ignore, load_gitignore
 from flowmark.file_resolver.types import FileResolverConfig
 
 # Characters that indicate a path is a glob pattern rather than a literal path.
@@ -37,7 +37,7 @@ class FileResolver:
         self._include_spec: pathspec.PathSpec = pathspec.PathSpec.from_lines(
             "gitignore", config.effective_include
         )
-        self._tool_ignore_cache: dict[Path, pathspec.PathSpec | None] = {}
+        self._tool_ignore_cache: dict[Path, tuple[Path, pathspec.PathSpec] | None] = {}
         # Cache gitignore specs per directory to avoid re-reading from disk.
         self._gitignore_cache: dict[Path, pathspec.PathSpec | None] = {}
 
@@ -135,7 +135,7 @@ class FileResolver:
                     continue
                 if self._is_gitignored(filepath, False, gitignore_chain):
                     continue
-                if tool_ignore and tool_ignore.match_file(filename):
+                if self._is_tool_ignored(filepath, False, tool_ignore):
                     continue
                 yield filepath
 
@@ -144,7 +144,7 @@ class FileResolver:
         dirname: str,
         rel_path: Path,
         current_dir: Path,
-        tool_ignore: pathspec.PathSpec | None,
+        tool_ignore: tuple[Path, pathspec.PathSpec] | None,
         walk_root: Path | None = None,
     ) -> bool:
         """Check if a directory should be pruned during traversal."""
@@ -162,12 +162,28 @@ class FileResolver:
             if self._is_gitignored(current_dir / dirname, True, chain):
                 return True
 
-        if tool_ignore and tool_ignore.match_file(dir_with_slash):
-            return True
-        if tool_ignore and tool_ignore.match_file(rel_with_slash):
+        if self._is_tool_ignored(current_dir / dirname, True, tool_ignore):
             return True
 
         return False
+
+    @staticmethod
+    def _is_tool_ignored(
+        path: Path, is_dir: bool, tool_ignore: tuple[Path, pathspec.PathSpec] | None
+    ) -> bool:
+        """
+        Apply the tool ignore file (e.g. `.flowmarkignore`) with gitignore semantics:
+        patterns are relative to the directory that holds the ignore file.
+        """
+        if tool_ignore is None:
+            return False
+        base, spec = tool_ignore
+        resolved = path.parent.resolve() / path.name
+        try:
+            rel = resolved.relative_to(base).as_posix()
+        except ValueError:
+            return False
+        return bool(spec.check_file(rel + "/" if is_dir else rel).include)
 
     def _expand_glob(self, pattern: str) -> Iterable[Path]:
         """Expand a glob pattern, then apply all filters."""
@@ -246,9 +262,9 @@ class FileResolver:
             current = current / next_part
         return specs
 
-    def _get_tool_ignore(self, start_dir: Path) -> pathspec.PathSpec | None:
+    def _get_tool_ignore(self, start_dir: Path) -> tuple[Path, pathspec.PathSpec] | None:
         """Lazily load tool-specific ignore file, cached per resolved start directory."""
         resolved = start_dir.resolve()
         if resolved not in self._tool_ignore_cache:
-            self._tool_ignore_cache[resolved] = load_tool_ignore(self._config.tool_name, start_dir)
+            self._tool_ignore_cache[resolved] = find_tool_ignore(self._config.tool_name, start_dir)
         return self._tool_ignore_cache[resolved]
